@@ -13,9 +13,9 @@ from io import BytesIO, IOBase
 import falcon
 import pyarrow as pa
 
-from vgi_rpc.rpc import _EMPTY_SCHEMA, _write_error_batch
+from vgi_rpc.rpc import _EMPTY_SCHEMA, RpcError, VersionError, _write_error_batch
 from vgi_rpc.rpc._common import _current_request_batch
-from vgi_rpc.utils import new_ipc_stream
+from vgi_rpc.utils import IPCError, new_ipc_stream
 
 from .._common import _ARROW_CONTENT_TYPE, RPC_ERROR_HEADER, _RpcHttpError
 
@@ -25,6 +25,28 @@ from .._common import _ARROW_CONTENT_TYPE, RPC_ERROR_HEADER, _RpcHttpError
 # request to translate a 500 into 200 + ``X-VGI-RPC-Error: true`` so the
 # response shape matches the documented contract for hard caps.
 _current_response_status: ContextVar[HTTPStatus] = ContextVar("vgi_rpc_response_status", default=HTTPStatus.OK)
+
+
+# What reading an HTTP request body raises when the bytes are not a
+# well-formed Arrow IPC request.  pyarrow reports framing damage (a bad
+# continuation marker, a corrupt flatbuffer) as ``OSError`` and unsupported
+# type ids as ``ArrowNotImplementedError`` rather than ``ArrowInvalid``; batch
+# validation raises ``IPCError``; a stream with no batch ends in
+# ``StopIteration``.  The body is an in-memory buffer, so an ``OSError`` here
+# is never real I/O, and external-location fetch failures arrive wrapped in
+# ``RuntimeError``.  All of these are the caller's fault and map to 400.
+_MALFORMED_IPC_ERRORS: tuple[type[BaseException], ...] = (
+    pa.ArrowInvalid,
+    pa.ArrowNotImplementedError,
+    IPCError,
+    OSError,
+    StopIteration,
+)
+
+# Everything that rejects a request before dispatch: the malformed-body
+# errors above plus the protocol-level refusals raised while validating the
+# request's metadata and parameters.
+_BAD_REQUEST_ERRORS: tuple[type[BaseException], ...] = (*_MALFORMED_IPC_ERRORS, TypeError, RpcError, VersionError)
 
 
 def _vgi_version() -> str:
